@@ -5,6 +5,7 @@
 //! here changes the behaviour of the library.
 
 pub mod bitswap;
+pub mod conn;
 pub mod decoders;
 pub mod mgr;
 pub mod mss;
